@@ -125,6 +125,15 @@ extern uint64_t g_N;
 /* full invariant of one container (memory shape is established separately by V_SHAPE in requires) */
 #define V_INV(p) (V_WORDS_OK(p) && V_CELL_OK(p) && V_BLK_OK(p))
 
+/* state of a moved-from vector */
+#if FLAVOUR == FL_SMALL
+#define V_MOVED_FROM(o) (V_SMALL(o) && V_SIZE(o) == 0 && V_CAPA(o) == g_N)
+#elif FLAVOUR == FL_STD
+#define V_MOVED_FROM(o) (V_SIZE(o) == 0 && V_CAPA(o) == 0 && B(o)->_storage == (E *)0)
+#else
+#define V_MOVED_FROM(o) (V_SIZE(o) == 0)
+#endif
+
 /* ------------------------------------------------------------------------------------------------ snapshots */
 struct vsnap { uint64_t size, capa; _Bool heap; E *data; uint64_t data_obj, data_off; };
 #define V_BIND(sn, p) ((sn).size == V_SIZE(p) && (sn).capa == V_CAPA(p) && (sn).heap == (V_HEAP(p) ? 1 : 0) && (sn).data == V_DATA(p) && \
